@@ -239,6 +239,9 @@ def catalogue():
     op("diff", only=flt)(lambda a, b, c: xp.diff(a, axis=0))
     # rechunk
     op("rechunk_transposed")(lambda a, b, c: a.rechunk((max(a.chunksize[0] // 2, 1), min(a.chunksize[1] * 2, a.shape[1]))))
+    # each task's copy block spans many (thin) chunks of the target array
+    op("rechunk_thin")(lambda a, b, c: a.rechunk((a.shape[0], max(a.chunksize[1] // 16, 1))))
+    op("identity")(lambda a, b, c: a)       # with case["store_chunks"]: cubed.store into an existing, finer-chunked Zarr array
     op("rechunk_rows")(lambda a, b, c: a.rechunk((min(a.chunksize[0] * 2, a.shape[0]), max(a.chunksize[1] // 2, 1))))
     op("rechunk_after_add", 2)(lambda a, b, c: xp.add(a, b).rechunk((max(a.chunksize[0] // 2, 1), min(a.chunksize[1] * 2, a.shape[1]))))
     # indexing
@@ -472,7 +475,13 @@ def run_case(case):
         results, spec, tmp, shape, chunks = build(case)
         t1 = time.time()
         ex = make_executor()
-        cubed.store(results, (None,) * len(results), executor=ex, optimize_graph=bool(case["fuse"]))
+        targets = (None,) * len(results)
+        if case.get("store_chunks"):
+            # pre-existing target whose chunks are finer than (and divide) the task's block; no compressor
+            import zarr
+            targets = [zarr.create_array(store=os.path.join(tmp, f"target{i}.zarr"), shape=x.shape, chunks=tuple(case["store_chunks"]),
+                                         dtype=x.dtype, compressors=None) for i, x in enumerate(results)]
+        cubed.store(results, targets, executor=ex, optimize_graph=bool(case["fuse"]))
         ops = []
         for name, rec in ex.ops.items():
             rec = dict(rec)
